@@ -1,6 +1,8 @@
 //verif:dest internal/io/fs/zz_verif_c04e.go
 //verif:replace@C04e (*regexp.Regexp).Match = c04eMatch
 //verif:replace@C04e regexp.Compile = c04Compile
+//verif:replace@C07i (*regexp.Regexp).Match = c04eMatch
+//verif:replace@C07i regexp.Compile = c04Compile
 
 package fs
 
